@@ -74,6 +74,24 @@ def gen_cases(tier, seed):
         rng = intuniv.rng_for(seed, "C08", i)
         i += 1
         case = gen.rand_search_case(rng, max_alpha=2 if rng.random() < 0.8 else 3)
+        if intuniv.rng_for(seed, "C08/deadchild", i).random() < 0.12:
+            # unions in which an earlier non-atom child does not carry a statistic that later
+            # children do: after one letter only that letter may follow, the statistic counts
+            # other letters (requests with a non-zero value must skip that child *and* its count)
+            d = intuniv.rng_for(seed, "C08/deadchild2", i)
+            first = d.choice("ab")
+            others = [x for x in "abc" if x != first]
+            pats = {first + x for x in others}
+            if d.random() < 0.5:
+                pats.add("".join(d.choice("abc") for _ in range(d.choice((2, 3)))))
+            case["cls"] = {"prefix": d.choice(("", "", others[0], others[1])), "patterns": sorted(pats),
+                           "alphabet": "abc", "just_prefix": False,
+                           "stats": [["k_0", d.choice((others[0], others[1], "".join(others)))]]
+                           + ([["k_1", first]] if d.random() < 0.3 else []),
+                           "bytes": False, "proper": False, "right": None}
+            case["pack"].update(dead=True, order=0, plus=d.random() < 0.3, factory=None, inferral=[], sym=False,
+                                ver="stat", iterative=False)
+            case["deadchild"] = True
         if rw.is_empty(case["cls"]):
             continue
         case["schedule"] = {"mode": "drain", "rng_seed": rng.randrange(10 ** 6), "tree_k": 1, "perc": 1,
